@@ -74,6 +74,18 @@ def chars_to_ranges(chars):
 
 
 ASCII_LETTERS = [(65, 90), (97, 122)]
+# a harness whose alphabet provably contains no non-ASCII cased character may switch the per-character case check off (see caseless())
+NONASCII_CASELESS = [False]
+
+
+class caseless:
+    def __enter__(self):
+        self.old = NONASCII_CASELESS[0]
+        NONASCII_CASELESS[0] = True
+
+    def __exit__(self, *a):
+        NONASCII_CASELESS[0] = self.old
+
 
 
 class SymChar:
@@ -121,7 +133,7 @@ class SymChar:
         """ASCII case mapping is symbolic; a non-ASCII character whose case mapping would change it is unsupported (forks once)"""
         c = self.c
         key = 'upper_changes' if up else 'lower_changes'
-        if ENG().decide(member(key + '_nonascii', c, lambda: [(a, b) for a, b in ranges(key) if a > 127])):
+        if not NONASCII_CASELESS[0] and ENG().decide(member(key + '_nonascii', c, lambda: [(a, b) for a, b in ranges(key) if a > 127])):
             raise Unsupported('case mapping of a non-ASCII letter')
         if up:
             return SymChar(z3.If(z3.And(c >= 97, c <= 122), c - 32, c))
